@@ -1,5 +1,6 @@
 import SideVerif.Drive.C10
 import SideVerif.Drive.Cal
+import SideVerif.Drive.C01
 open Lean
 namespace SideVerif.Drive
 
@@ -9,6 +10,7 @@ def dispatch (op : String) (j : Json) : Except String Json :=
   | "c10.all" => c10All j
   | "cal.trunc" => calTrunc j
   | "cal.compat" => calCompat j
+  | "c01" => c01 j
   | "ping" => pure (Json.str "pong")
   | _ => throw s!"unknown op {op}"
 
